@@ -286,9 +286,42 @@ impl<'a, 'c> DG<'a, 'c> {
                         let use_col = pre.len();
                         let mid = format!("{pre}{name}) for ");
                         let bind_col = mid.len();
-                        let line = self.push_line(format!("{mid}{name} in [\"{tag}\"]]"));
+                        // the first iterable is evaluated in the ENCLOSING scope: it may read an outer binding of any
+                        // visible name, including the very name the comprehension rebinds
+                        let mut text = format!("{mid}{name} in [");
+                        let mut extra_uses: Vec<(u32, String, usize)> = Vec::new();
+                        if !visible.is_empty() && self.ch.chance(2, 3) {
+                            let outer = if visible.contains(&name.to_owned()) && self.ch.bool() { name.to_owned() } else { visible[self.ch.idx(visible.len())].clone() };
+                            self.next_key += 1;
+                            let k2 = self.next_key;
+                            text.push_str(&format!("probe({k2}, "));
+                            extra_uses.push((k2, outer.clone(), text.len()));
+                            text.push_str(&format!("{outer}), "));
+                        }
+                        text.push_str(&format!("\"{tag}\"]"));
+                        // optional second clause: its iterable is evaluated in the comprehension's scope
+                        if self.ch.chance(1, 3) {
+                            self.next_key += 1;
+                            let k3 = self.next_key;
+                            let other = *self.ch.pick(NAMES);
+                            if other != name {
+                                let tag2 = self.tag(other, sc);
+                                text.push_str(" for ");
+                                let b2 = text.len();
+                                text.push_str(&format!("{other} in [\"{tag2}\", probe({k3}, "));
+                                extra_uses.push((k3, name.to_owned(), text.len()));
+                                text.push_str(&format!("{name})]"));
+                                let line_idx = self.doc.lines.len();
+                                self.doc.bindings.push(Binding { name: other.to_owned(), scope: sc, line: line_idx, byte_col: b2, tag: tag2, file: 0 });
+                            }
+                        }
+                        text.push(']');
+                        let line = self.push_line(text);
                         self.doc.bindings.push(Binding { name: name.to_owned(), scope: sc, line, byte_col: bind_col, tag, file: 0 });
                         self.doc.uses.push(UseSite { key: k, name: name.to_owned(), line, byte_col: use_col });
+                        for (k2, n2, col) in extra_uses {
+                            self.doc.uses.push(UseSite { key: k2, name: n2, line, byte_col: col });
+                        }
                     }
                 }
                 4 => {
